@@ -236,7 +236,9 @@ func (va ClawbackVestingAccount) ComputeClawback(
 
 	// Now construct the new account state
 	va.OriginalVesting = totalVested
-	va.EndTime = Max64(newVestingEnd, newLockingEnd)
+	// the account stays valid (start before end) even when everything it keeps
+	// is released at the start instant, i.e. by zero-length periods only
+	va.EndTime = Max64(Max64(newVestingEnd, newLockingEnd), va.GetStartTime()+1)
 	va.LockupPeriods = newLockupPeriods
 	va.VestingPeriods = newVestingPeriods
 
